@@ -344,7 +344,6 @@ def ghost_check(ordered, per_thr, W, off_head):
         elif code == 21:
             U -= ((old - new) & ((1 << 64) - 1)) >> 41
         owner = on
-        cases.append((new, U + dw, int(bm), U, dw, pos, w["line"], w["fn"]))
         bad = []
         if bm and (dw != W or on == 0):
             bad.append("reconstruction: barrier owner with %d intervals owned, owner field %d" % (dw, on))
@@ -352,8 +351,7 @@ def ghost_check(ordered, per_thr, W, off_head):
             bad.append("reconstruction: no lock owner but %d intervals owned / readers %d" % (dw, U))
         if note:
             bad.append(note)
-        if bad and len(probs) < 3:
-            probs.append({"position": pos, "word": new, "old": old, "site": w["line"], "function": w["fn"], "width": W, "problems": bad})
+        cases.append((new, U + dw, int(bm), U, dw, pos, w["line"], w["fn"], "; ".join(bad) if bad else None))
     return cases, probs, stats
 
 
@@ -591,6 +589,7 @@ def coq_judge(ctx, trc, wordc, ownc, acctc=()):
                                  "detail": ownc[k]["info"]})
     # (iii) the width accounting itself (CLaneJudge.acct_ok = the equation of C04_width_accounting) on the reconstructed ghost state
     flat = [(n, k) for n, c in enumerate(acctc) for k in range(len(c["cases"]))]
+    failing = {}
     for c0 in range(0, len(flat), 5000):
         part = flat[c0:c0 + 5000]
         body = "Definition cases : list (list Z) := [\n" + ";\n".join(
@@ -602,22 +601,28 @@ def coq_judge(ctx, trc, wordc, ownc, acctc=()):
                          "detail": {"coq": prob, "run": acctc[part[0][0]]["info"].get("run")}})
             continue
         judged["accounting_words"] += len(part)
-        first = {}
         for i in driver.ints(vals[0]):
             if 0 <= i < len(part):
                 n, k = part[i]
-                first.setdefault(n, []).append(k)
-        for n, ks in first.items():
-            c = acctc[n]
-            word, held, bm, U, dw, pos, site, fn = c["cases"][ks[0]]
-            d = dict(c["info"])
-            d.update({"position": pos, "word": word, "width": c["W"], "width_field": wq(word), "pending_barrier": (word >> 40) & 1,
-                      "in_barrier": (word >> 54) & 1, "reconstructed_readers": U, "reconstructed_owned_by_lock_holder": dw,
-                      "reconstructed_barrier_owner": bm, "expected_width_field": 4096 - c["W"] + held + (c["W"] - 1) * ((word >> 40) & 1),
-                      "site": site, "function": fn, "violations_in_round": len(ks)})
-            mism.append({"what": "the width accounting does not hold on the reconstructed state (CLaneJudge.acct_ok, the equation of "
-                                 "C04_width_accounting): the width field is not 4096 - W + held intervals + (W-1)*pending, or IN_BARRIER "
-                                 "does not coincide with the existence of a barrier owner; first offending word of the round", "detail": d})
+                failing.setdefault(n, []).append(k)
+    # one report per round: its FIRST offending word (what follows is a consequence), be it the equation evaluated in Coq or an
+    # impossible ghost update noticed while reconstructing (e.g. a lock taken as a barrier owner while intervals were held)
+    for n, c in enumerate(acctc):
+        ks = sorted(failing.get(n, []))
+        notes = [k for k in range(len(c["cases"])) if c["cases"][k][8]]
+        if not ks and not notes:
+            continue
+        k0 = min(ks[:1] + notes[:1])
+        word, held, bm, U, dw, pos, site, fn, note = c["cases"][k0]
+        d = dict(c["info"])
+        d.update({"position": pos, "word": word, "width": c["W"], "width_field": wq(word), "pending_barrier": (word >> 40) & 1,
+                  "in_barrier": (word >> 54) & 1, "reconstructed_readers": U, "reconstructed_owned_by_lock_holder": dw,
+                  "reconstructed_barrier_owner": bm, "expected_width_field": 4096 - c["W"] + held + (c["W"] - 1) * ((word >> 40) & 1),
+                  "site": site, "function": fn, "equation_fails_here": k0 in ks, "reconstruction_note": note,
+                  "words_failing_the_equation_in_round": len(ks), "impossible_ghost_updates_in_round": len(notes)})
+        mism.append({"what": "the width accounting does not hold on the reconstructed state (CLaneJudge.acct_ok, the equation of "
+                             "C04_width_accounting: width field = 4096 - W + held intervals + (W-1)*pending, IN_BARRIER exactly with a "
+                             "barrier owner) or the ghost state cannot be continued; first offending word of the round", "detail": d})
     return mism, judged
 
 
